@@ -135,17 +135,6 @@ theorem agree_validate : @R.validate = @Position.validate := by
         · simp only [hc, if_false, Bool.false_eq_true]
           rfl
 
-/-! ## eval.rs -/
-theorem agree_get_phase : @R.get_phase = @phase := rfl
-theorem agree_taper : @R.taper = @taper := rfl
-theorem agree_eval_us : @R.eval_us = @evalUsT genEvalTables := rfl
-theorem agree_eval : @R.eval = @eval := by
-  funext p; unfold R.eval eval evalT; rw [agree_eval_us, agree_from_flipped, agree_get_phase, agree_taper]
-
-/-! non-vacuity: the regenerated functions compute (start position, e2) -/
-example : R.get_piece_on Gen.startpos 12 = some 0 := by decide
-example : R.is_capture Gen.startpos ⟨12, 28, 6⟩ = false := by decide
-
 end Rawr
 
 #print axioms Rawr.agree_flip
@@ -155,4 +144,3 @@ end Rawr
 #print axioms Rawr.agree_is_bb_attacked
 #print axioms Rawr.agree_get_attacked
 #print axioms Rawr.agree_validate
-#print axioms Rawr.agree_eval
